@@ -1,14 +1,15 @@
 /- line-protocol engine `alloc` (C09): the accounting model run on an event trace.
 
   alloc shape                                   -> `recognised=<b> rollsBack=<b> uses=<n>/<monotone> mutations=<n>`
-  alloc trace <L|-> <xvalue>,<bigint>,<fenced>,<usize> <ev>…
+  alloc trace <L|-> <xvalue>,<bigint>,<fenced>,<usize>,<rc>,<vec> <ev>…
        ev: a<id>:<bytes>  Runtime::allocate of <bytes>          -> `ok <recorded>` | `viol`
            e<id>:<bytes>  managed error value, message <bytes>    -> `ok` | `viol`
            s<id>:<bytes>  managed ASCII string value              -> `ok` | `viol`
            d<id>          drop                                    -> `ok` | `noop`
            p<n>           can_allocate(n)                         -> `ok` | `viol`
        answer: `<outcome>,<size after>;…|<size before cleanup>|<underflows>`
-  alloc size <xvalue>,<bigint>,<fenced>,<usize> <kind> <n>…   -> `<XValue::size> <payload>` of a value shape
+  alloc size <consts> <kind> <n>…   -> `<XValue::size> <payload>` of a value shape, or `<dyn_size> <entries * rc>` of a native
+       container shape (consts = xvalue,bigint,fenced,usize,rc,vec)
   The shape of `allocate` (does it roll back?) is the one generated from the sources.
 -/
 import XrayModel.Alloc
@@ -61,8 +62,8 @@ def allocEngine (f : String) (args : List String) : String :=
   | "trace", lim :: cs :: evs =>
     let limit? : Option (Option Nat) := if lim == "-" then some none else lim.toNat?.map some
     match limit?, (cs.splitOn ",").mapM String.toNat? with
-    | some limit, some [xv, bi, fs, us] =>
-      let c : Consts := { xvalue := xv, bigint := bi, fencedString := fs, usize := us }
+    | some limit, some [xv, bi, fs, us, rc, vc] =>
+      let c : Consts := { xvalue := xv, bigint := bi, fencedString := fs, usize := us, rc := rc, vec := vc }
       match evs.mapM (allocParseEv c) with
       | none => "bad-op"
       | some pes =>
@@ -73,8 +74,8 @@ def allocEngine (f : String) (args : List String) : String :=
     | _, _ => "bad-op"
   | "size", cs :: kind :: ns =>
     match (cs.splitOn ",").mapM String.toNat?, ns.mapM String.toNat? with
-    | some [xv, bi, fs, us], some ns =>
-      let c : Consts := { xvalue := xv, bigint := bi, fencedString := fs, usize := us }
+    | some [xv, bi, fs, us, rc, vc], some ns =>
+      let c : Consts := { xvalue := xv, bigint := bi, fencedString := fs, usize := us, rc := rc, vec := vc }
       let v? : Option Val :=
         match kind, ns with
         | "intShort", [] => some .intShort
@@ -85,9 +86,24 @@ def allocEngine (f : String) (args : List String) : String :=
         | "struct", [n] => some (.structInstance n)
         | "fn", [n] => some (.userFunction n)
         | _, _ => none
-      match v? with
-      | some v => s!"{v.size c} {v.payload c}"
-      | none => "bad-op"
+      let n? : Option Native :=
+        match kind, ns with
+        | "seqArray", [n] => some (.seqArray n)
+        | "seqZip", [n] => some (.seqZip n)
+        | "seqChain", [n] => some (.seqChain n)
+        | "seqOther", [] => some .seqOther
+        | "stack", [o, e] => some (.stack o (e != 0))
+        | "mapping", [b, l] => some (.mapping b l)
+        | "set", [b, l] => some (.set b l)
+        | "genZip", [n] => some (.genZip n)
+        | "genChain", [n] => some (.genChain n)
+        | "genOther", [] => some .genOther
+        | "optional", [] => some .optional
+        | _, _ => none
+      match v?, n? with
+      | some v, _ => s!"{v.size c} {v.payload c}"
+      | none, some n => s!"{n.dynSize c} {n.entries * c.rc}"
+      | none, none => "bad-op"
     | _, _ => "bad-op"
   | _, _ => "bad-op"
 
